@@ -133,6 +133,7 @@ Theorem unmarshal_struct_fieldwise : forall unm d bs e st1 st2,
   unmarshal_struct sch unm d (VStruct bs) e = Ok (VStruct st2).
 Proof.
   intros unm d bs e st1 st2 Hs Hn Hnp Hnd Ha Hk. unfold unmarshal_struct. rewrite Hs. cbn [negb].
+  rewrite (Forall3_length12 _ _ _ _ Ha), Nat.eqb_refl. cbn [negb].
   assert (Hc : (negb (String.eqb (xmlname_tag d) "") && negb (String.eqb (xmlname_tag d) (xname e))) = false).
   { apply orb_true_iff in Hn. destruct Hn as [->| ->]; [reflexivity | apply andb_false_r]. }
   rewrite Hc.
